@@ -235,6 +235,9 @@ def late_attach_spec(draw):
     root["algos"] = [["Probe", {"key": "c19uni", "run_always": True}], ["RunDaily", {}], ["SelectAll", {}], ["WeighEqually", {}], ["Rebalance", {}]]
     if draw(st.booleans()):
         root.pop("children", None)
+    if sorted(sub_t) == tickers:
+        # wanting every ticker is the same as declaring nothing: the newcomer's universe is the data, no more (no strategy columns)
+        sub.pop("children")
     root["late"] = [sub]
     return spec
 
